@@ -192,7 +192,7 @@ def set_policy(order='identity', seed=0, capture=False, audit=False):
 W = {}   # per-worker state
 
 
-def worker_init(repo, quiet=True):
+def worker_init(repo, quiet=True, scratch_root=None):
     os.environ.setdefault('MPLBACKEND', 'Agg')
     sys.path.insert(0, repo)
     sys.path.insert(0, VERIF)
@@ -208,7 +208,7 @@ def worker_init(repo, quiet=True):
     install_pool('controlled')
     from harness.sx import Model
     W['model'] = Model()
-    W['scratch'] = tempfile.mkdtemp(prefix='akv_')
+    W['scratch'] = tempfile.mkdtemp(prefix='akv_', dir=scratch_root)
     import atexit
     atexit.register(lambda: shutil.rmtree(W['scratch'], ignore_errors=True))
 
@@ -227,7 +227,9 @@ def run_cases(fn, cases, nworkers=None, timeout=900):
     """Runs fn(case) for every case in worker processes; returns the list of
     results (exceptions in the harness itself are re-raised)."""
     nworkers = nworkers or min(14, os.cpu_count() or 4, max(1, len(cases)))
-    ex = cf.ProcessPoolExecutor(max_workers=nworkers, initializer=worker_init, initargs=(REPO,))
+    # worker processes leave through os._exit (no atexit): the parent owns and removes the scratch root
+    scratch_root = tempfile.mkdtemp(prefix='akvroot_')
+    ex = cf.ProcessPoolExecutor(max_workers=nworkers, initializer=worker_init, initargs=(REPO, True, scratch_root))
     out = []
     try:
         futs = [ex.submit(fn, c) for c in cases]
@@ -241,7 +243,9 @@ def run_cases(fn, cases, nworkers=None, timeout=900):
                     p.kill()
                 break
     finally:
-        ex.shutdown(wait=False, cancel_futures=True)
+        hung = any(isinstance(o, dict) and 'hang' in o for o in out)
+        ex.shutdown(wait=not hung, cancel_futures=True)
+        shutil.rmtree(scratch_root, ignore_errors=True)
     return out
 
 
